@@ -1,4 +1,3 @@
 SPECIFICATION Spec
-CONSTANT LimitProof = FALSE
 INVARIANTS ServeOK Emit
 CHECK_DEADLOCK FALSE
